@@ -257,7 +257,7 @@ def ev_for(prop, cfg, tier):
     if prop == 'C06':
         # what the statement quantifies over: calls (+ clear / dump, which keep bookkeeping consistent)
         ev = call_events(n, sp) + [('clear',), ('dump',)]
-        if cfg['alg'] == 'lru':
+        if cfg['alg'] == 'lru' and (tier != 'quick' or cfg['maxsize'] == 1):
             ms = cfg['maxsize']
             ev += [('callx', 0, 10 * ms - 1), ('callx', 1, 10 * ms + 1)]
         if cfg['alg'] == 'lfu':
@@ -291,7 +291,7 @@ BOUNDS = {
     'C01': ((6, 1500), (8, 12000), 4),
     'C02': ((6, 1500), (8, 12000), 4),
     'C05': ((6, 2000), (8, 15000), 4),
-    'C06': ((7, 3000), (9, 25000), 5),
+    'C06': ((6, 1200), (9, 25000), 5),
     'C07': ((6, 1500), (8, 12000), 4),
     'C15': ((5, 1200), (7, 10000), 4),
     'C16': ((5, 1200), (7, 10000), 4),
@@ -319,9 +319,9 @@ def make_monitors_for(prop):
 
 
 def _worker(task):
-    prop, cfg, mode, depth, states, budget = task
+    prop, cfg, mode, depth, states, budget, tier = task
     mk = make_monitors_for(prop)
-    evs = ev_for(prop, cfg, 'x')
+    evs = ev_for(prop, cfg, tier)
     cont = None
     if prop == 'C20':
         from .c20cont import continuation_check as cont
@@ -348,12 +348,12 @@ def run(prop, tier, seed):
         persistent = cfg['backend'].split(':')[-1] in cachemc.PERSISTENT
         d = min(depth, 4 if tier == 'quick' else 5) if persistent else depth
         st = min(states, 400 if tier == 'quick' else 2500) if persistent else states
-        tasks.append((prop, cfg, 'bfs', d, st, None))
+        tasks.append((prop, cfg, 'bfs', d, st, None, tier))
     if tier == 'thorough' and dfs:
         for cfg in cfgs:
             if cfg['backend'].split(':')[-1] in cachemc.PERSISTENT:
                 continue
-            tasks.append((prop, cfg, 'dfs', dfs, 0, None))
+            tasks.append((prop, cfg, 'dfs', dfs, 0, None, tier))
     for res in pool.run_configs(_worker, tasks, seed=seed):
         rep.merge(res)
     rep.extra['bounds'] = {'bfs_depth_cap': depth, 'bfs_state_cap': states,
